@@ -269,6 +269,20 @@ def family(t, tier):
                     sp = rle_block(t, base_n, [(True, True)])
                     _poke(sp, t, pos, v)
                     yield ("float", sp, {"mem": mem})
+        # (4a) several extreme values in one frame (their sum / product leaves the float32 range)
+        if _width(t) > 1:
+            big, neg = F32[6], F32[7]
+            for combo in ((big, big), (neg, neg), (big, neg)):
+                for fill_all in (False, True):
+                    sp = rle_block(t, 3, [(True, False, True), (True, True, True)], chans=[5, 1])
+                    w = _width(t)
+                    for fr in (0, 2):
+                        _poke(sp, t, fr * w + 0, combo[0])
+                        _poke(sp, t, fr * w + 1, combo[1])
+                        if fill_all:
+                            for q in range(2, w):
+                                _poke(sp, t, fr * w + q, combo[q % 2])
+                    yield ("float2", sp, opts0)
         # (4b) present frames that are NaN in some component other than the deciding first one
         yield from partial_frames(t)
         # (5) labels
